@@ -54,7 +54,10 @@ def main():
                 rc1, out1 = sh("go test %s-vet=off -count=1 -run 'Demo' %s" % (race, rel), os.path.join(d, mod))
                 ran.append("demo with change: rc=%d %s" % (rc1, " | ".join(l.strip() for l in out1.splitlines() if "---" in l or "demo" in l.lower())[:400]))
                 os.remove(dst)
-                rc2, out2 = sh("go build ./... && " + quick, os.path.join(d, mod))
+                for qa in range(3):  # the suite has timing-sensitive tests: a change passes if one of three runs passes
+                    rc2, out2 = sh("go build ./... && " + quick, os.path.join(d, mod))
+                    if rc2 == 0 or "TestValidFlags" in out2:
+                        break
                 fails = [l for l in out2.splitlines() if l.startswith("--- FAIL") or l.startswith("FAIL")]
                 if mod == "spanner_prober":
                     fails = [l for l in fails if "TestValidFlags" not in l and l.strip() not in ("FAIL", "FAIL\tspanner_prober") and not l.startswith("FAIL\tspanner_prober\t")]
